@@ -232,8 +232,15 @@ func cmdHoldemDeal(args []string) {
 			base = pf.NewShortDeckCards()
 		}
 		holeN, req := 2, 0
-		if r.Intn(3) == 0 {
+		switch k := r.Intn(12); {
+		case k < 4:
 			holeN, req = 4, 2
+		case k == 4:
+			holeN, req = 2, 2 // every hole card is required
+		case k == 5:
+			holeN, req = 3, 2
+		case k == 6:
+			holeN, req = 4, 0
 		}
 		n := 2 + r.Intn(5)
 		for n*holeN+8 > len(base) {
